@@ -417,9 +417,71 @@ def cases_c09(ctx, boost):
     return out
 
 
+# =============================================================================== C10
+def cases_c10(ctx, boost):
+    out = []
+    cfg = "000"
+    g = ctx.gen(cfg)
+    rng = g.rng
+    methods = {"MakeCredential": "make_credential", "GetAssertion": "get_assertion", "ClientPin": "client_pin",
+               "CredentialManagement": "credential_management", "LargeBlobs": "large_blobs"}
+    cmd = {"MakeCredential": 1, "GetAssertion": 2, "ClientPin": 6, "CredentialManagement": 0x0A, "LargeBlobs": 0x0C}
+    reqs = []
+    for variant, payload in ctx.data["schemas"][cfg]["variants"]["request_variants"]:
+        if payload and payload != "vendor":
+            t = {"named": payload}
+            vals = [g.s.min_value(t)] + [g.rand_val(t, 0.5) for _ in range(2 * boost)]
+            for v in vals:
+                try:
+                    b = bytes([cmd[variant]]) + casegen.enc_item(g.value_item(t, v))
+                except Exception:
+                    continue
+                reqs.append((variant, methods[variant], b.hex()))
+    reqs += [("GetInfo", "get_info", "04"), ("GetNextAssertion", "get_next_assertion", "08"), ("Reset", "reset", "07"),
+             ("Selection", "selection", "0b"), ("CredentialManagement", "credential_management", "41a10101")]
+    codes = [1, 2, 0x27, 0x2E, 0x31, 0x7F]
+    allm = sorted(set(m for _, m, _ in reqs) | {"vendor"})
+    for variant, m, hx in reqs:
+        for entry in ("direct", "rpc"):
+            for lb in ("lb", "nolb"):
+                fails = ["-"] + [f"{m}:{c}" for c in codes] + [f"{o}:{rng.choice(codes)}" for o in allm if o != m][:4]
+                for f in fails:
+                    out.append(Case("call2", cfg, f"call2 {entry} {lb} {hx} {f}", tag=variant))
+    for b in range(0x40, 0x80):
+        for entry in ("direct", "rpc"):
+            for f in ("-", f"vendor:{rng.choice(codes)}"):
+                out.append(Case("call2", cfg, f"call2 {entry} lb vendor:{b} {f}", tag="Vendor direct"))
+                if b >= 0x42:
+                    out.append(Case("call2", cfg, f"call2 {entry} lb {b:02x} {f}", tag="Vendor decoded"))
+    reg = build_apdu(0, 1, 0, 0, rng.randbytes(64), None, False).hex()
+    auth = bytearray(rng.randbytes(65 + 9)); auth[64] = 9
+    auth = build_apdu(0, 2, 3, 0, bytes(auth), None, False).hex()
+    ver = build_apdu(0, 3, 0, 0, b"", None, False).hex()
+    for apdu in (reg, auth, ver):
+        for entry in ("direct", "rpc"):
+            for f in ("-", "register", "authenticate", "version"):
+                out.append(Case("call1", cfg, f"call1 {entry} {apdu} {f}", tag="ctap1"))
+    return out
+
+
 NOT_YET = {}
 
 PROPS = {
+    "C10": {"ns": "C10", "cases": cases_c10,
+            "level_text": "Proof. The dispatcher arms (request variant -> trait method(s) invoked, payload passed, response "
+                          "variant named, `?` propagation) are extracted from call_ctap2 / call_ctap1 on every run and "
+                          "interpreted by a fixed Lean interpreter; theorems ctap2 / ctap1 hold for every state type, every "
+                          "authenticator behaviour (arbitrary state transition + optional error per method) and every request "
+                          "variant: exactly one handler runs, once, with the payload iff the command has one, its error is "
+                          "returned unchanged, otherwise the same-named response; GetInfo / Version cannot fail. Obligations: "
+                          "generated arm tables = specification's as maps, Rpc::call bodies delegate, default large_blobs = "
+                          "Err(InvalidCommand), default version = U2F_V2. Correspondence: recording mock through both entry "
+                          "points, every variant, all 64 vendor codes, each handler failing with 6 codes.",
+            "rule": "every request variant × {direct, Rpc::call} × {large_blobs overridden, default} × {no failure, own handler "
+                    "failing with 6 codes, another handler failing}; 64 vendor codes constructed directly and decoded; CTAP1 "
+                    "register / authenticate / version",
+            "assumptions": ["arm extraction sees method calls of the form self.method(args) / Self::method(); other control flow "
+                            "in an arm is only covered by the correspondence"]},
     "C08": {"ns": "C08", "cases": cases_c08,
             "level_text": "Proof. Hand model of TryFrom<CommandView> for ctap1::Request with the three try_into().unwrap() "
                           "sites and the slice indexing as explicit panic outcomes and the Instruction::Unknown quirk; theorem "
